@@ -145,6 +145,11 @@ def run_path(task):
         out["src_hash"] = fu.src_hash
     except (Unsupported, ContractBindError) as e:
         out["error"] = f"{type(e).__name__}: {e}"
+    except TypeError as e:
+        if "positional argument" in str(e) or "keyword argument" in str(e):
+            out["error"] = f"ContractBindError: a signature no longer matches the sidecar contract ({e})"
+        else:
+            out["error"] = f"ENGINE-ERROR {type(e).__name__}: {e}\n{traceback.format_exc()[-1500:]}"
     except Exception as e:  # engine bug: reported as a checker error, never as a verdict
         out["error"] = f"ENGINE-ERROR {type(e).__name__}: {e}\n{traceback.format_exc()[-1500:]}"
     return out
